@@ -342,6 +342,11 @@ func main() {
 	var mismatches []mismatch
 	segments := 2
 	for rep := 0; rep < reps; rep++ {
+		// every second storm runs with the hooks quiet: no hit counters, no perturbation, hence no
+		// synchronization added by the instrumentation that could order two racing accesses for the detector
+		// (no session goroutine of an earlier storm is left at this point)
+		verifhook.SetQuiet(rep%2 == 1)
+		r.Count(fmt.Sprintf("storms.hooks-quiet=%v", rep%2 == 1), 1)
 		var wg sync.WaitGroup
 		var idMu sync.Mutex
 		var ids []int64
@@ -504,6 +509,7 @@ func main() {
 			r.Violation("quiescence:memory-manager-caches-not-back-to-baseline", w)
 		}
 	}
+	verifhook.SetQuiet(false)
 	srv.Close()
 
 	// status-variable registry under direct concurrent use: increments from many goroutines are all counted
